@@ -210,3 +210,73 @@ if __name__ == "__main__":
     only = set(sys.argv[2:]) or None
     for r in run_mutants(prop, 0, only):
         print(r["status"], r["name"], r.get("reported") or r.get("why", ""))
+
+
+# ---------------------------------------------------------------------------------------------------------------
+# Composed mutants: an independently written *rename / move* (benign_ext/<id>/patch.diff, which every check must
+# ignore) followed by one semantic slip in the renamed code. The rename layer (lib/rename.py) gives the pinned names
+# back; the slip must still be reported - by the rule that reads the body now found under the old name.
+
+COMPOSED = [
+    # (name, properties, rename patch, file, old, new, expected rule)
+    ("renamed-limiter-drops-complete", ["C03", "C08", "C09"], "C08-b5-1", "src/limits.rs",
+     "    fn complete(&mut self) -> ProcessResult<()> {\n        self.next.complete()\n    }",
+     "    fn complete(&mut self) -> ProcessResult<()> {\n        Ok(())\n    }", "C03-COMPLETE"),
+    ("renamed-unique-inverted", ["C10", "C03"], "C03-b5-1", "src/duplication_remover.rs",
+     "if self.known_lines.insert(context.key()) {", "if !self.known_lines.insert(context.key()) {", "C10-FIRST-ONLY"),
+    ("dissolved-trait-exponent", ["C01"], "C19-b5-2", "src/json_parser.rs",
+     "Some(b'e' | b'E')", "Some(b'e')", "C01-NUMBER"),
+    ("moved-read-loop-counter", ["C17", "C06"], "C17-b5-1", "src/input.rs",
+     "                            in_file_index += 1;\n", "", "C17-COUNTERS"),
+    ("renamed-evict-oldest", ["C07", "C08"], "C07-b5-1", "src/sorters.rs",
+     "v.pop_front();", "v.pop_back();", "C07-EVICT"),
+]
+
+
+def run_composed(prop):
+    specs = [c for c in COMPOSED if prop in c[1]]
+    out = []
+    if not specs:
+        return out
+    base = tempfile.mkdtemp(prefix="jawk-selftest-")
+    try:
+        baseline, d0 = evaluate(prop, None, "")
+        for name, props, ren, file, old, new, rule in specs:
+            w = os.path.join(base, "tree")
+            shutil.rmtree(w, ignore_errors=True)
+            _copy_tree(w)
+            rec = {"name": name, "kind": "rename + slip", "rename": "benign_ext/" + ren, "expect": rule, "file": file}
+            ok = subprocess.run(["git", "apply", os.path.join(VERIF, "benign_ext", ren, "patch.diff")], cwd=w,
+                                stdout=subprocess.DEVNULL, stderr=subprocess.DEVNULL).returncode == 0
+            p = os.path.join(w, file)
+            s = open(p).read() if ok and os.path.exists(p) else ""
+            if not ok or s.count(old) < 1:
+                rec["status"] = "skipped"
+                rec["why"] = "the rename patch or the slip does not apply to the current tree"
+                out.append(rec)
+                continue
+            open(p, "w").write(s.replace(old, new))
+            try:
+                bad, d = evaluate(prop, w, "-mut")
+                newr = {rid: [k for k in keys if k not in baseline.get(rid, [])] for rid, keys in bad.items()}
+                newr = {rid: ks for rid, ks in newr.items() if ks}
+                rec["reported"] = {rid: ks[:3] for rid, ks in newr.items()}
+                anchors = [k for ks in newr.values() for k in ks if k.startswith("anchor-missing")]
+                if rule in newr and not anchors:
+                    rec["status"] = "killed"
+                elif newr:
+                    # reported, but through a missing anchor: the rename was not recognised
+                    rec["status"] = "killed-by-other-rule" if not anchors else "survived"
+                    if anchors:
+                        rec["why"] = "reported only through missing anchors: the rename was not recognised"
+                else:
+                    rec["status"] = "survived"
+            except Exception as e:
+                rec["status"] = "skipped"
+                rec["why"] = "mutated tree could not be analysed: %s" % str(e)[-300:]
+            out.append(rec)
+    finally:
+        shutil.rmtree(base, ignore_errors=True)
+        from lib import extract as ex
+        shutil.rmtree(os.path.join(ex.CACHE, "facts", "dev-mut"), ignore_errors=True)
+    return out
